@@ -93,6 +93,7 @@ func classes(f iogen.SeqFile) []string {
 			nt = true
 		}
 	}
+	l = append(l, iogen.RouteClasses(f.Route)...)
 	l = append(l, fmt.Sprintf("write-q=%v/read-q=%v", f.WriteQ, f.ReadQ))
 	if f.Format == "fastq" {
 		l = append(l, "enc="+fmt.Sprint(f.Enc), fmt.Sprintf("qid=%v", f.QID))
